@@ -41,6 +41,12 @@ Theorem C07_edge_determined_by_preedge_state s t e1 e2 : NoDup s -> Permutation 
   (forall i v, In i s -> rd (B i) v = true \/ wr (B i) v = true -> e1 v = e2 v) ->
   forall i v, In i s -> wr (B i) v = true -> run_list B s e1 v = run_list B t e2 v.
 Proof. exact (ff_edge_determined B ffs Hframe Hdep Hsw Hff s t e1 e2). Qed.
+(* "forall input sequences": any number of edges, each run in its own order of the blocks, from equal states: equal states *)
+Theorem C07_any_number_of_edges_any_orders os1 os2 :
+  Forall2 (fun s t => NoDup s /\ Permutation s t /\ incl s ffs) os1 os2 ->
+  forall e1 e2, eqe e1 e2 ->
+  eqe (fold_left (fun e s => run_list B s e) os1 e1) (fold_left (fun e s => run_list B s e) os2 e2).
+Proof. exact (ff_many_edges B ffs Hframe Hdep Hsw Hff os1 os2). Qed.
 End C07.
 
 (* the section hypotheses are satisfiable and the theorems say something: the register swap  a <<= b ; b <<= a
@@ -77,4 +83,4 @@ Proof. vm_compute. split; reflexivity. Qed.
 Print Assumptions C07_any_ff_order. Print Assumptions C07_every_block_sees_preedge_state.
 Print Assumptions C07_ilshift_invisible. Print Assumptions C07_last_wins. Print Assumptions C07_flip. Print Assumptions C07_hold.
 Print Assumptions C07_unassigned_holds. Print Assumptions C07_edge_is_function_of_preedge_state.
-Print Assumptions C07_edge_determined_by_preedge_state. Print Assumptions C07_swap_nonvacuous.
+Print Assumptions C07_edge_determined_by_preedge_state. Print Assumptions C07_swap_nonvacuous. Print Assumptions C07_any_number_of_edges_any_orders.
